@@ -120,16 +120,21 @@ class Cmp:
     """Compare impl and oracle outcomes on one path.
     returns ('ok'|'skip', None) | ('sat', model|None, why) | ('unknown', None, why)"""
 
-    def __init__(self, q: Query, fam, truthy=False):
+    def __init__(self, q: Query, fam, truthy=False, lenient=False):
         self.q = q
         self.fam = fam
         self.truthy = truthy
+        # lenient: where the reference computation itself raises an arithmetic error (the value is undefined there),
+        # nothing is required of the implementation
+        self.lenient = lenient
 
     def __call__(self, pc, impl, oracle):
         if oracle[0] == "exc":
             oe = oracle[1]
             if isinstance(oe, (TypeError, AttributeError, NotImplementedError)):
                 return ("skip", None, "oracle ill-typed")
+            if self.lenient and isinstance(oe, ARITH_ERRORS):
+                return ("skip", None, "reference undefined here")
             if impl[0] == "exc" and exc_matches(impl[1], oe):
                 return ("ok", None, "")
             return ("sat", None, f"oracle {show_outcome(oracle)} but impl {show_outcome(impl)}")
@@ -211,13 +216,15 @@ def concrete_equal(a, b, truthy=False):
         return False
 
 
-def replay_differs(impl_fn, oracle_fn, truthy=False):
+def replay_differs(impl_fn, oracle_fn, truthy=False, lenient=False):
     """Run both on concrete values. -> (differs: bool, text)"""
     o = outcome(oracle_fn)
     i = outcome(impl_fn)
     if o[0] == "exc":
         if isinstance(o[1], (TypeError, AttributeError, NotImplementedError)):
             return False, "oracle ill-typed on replay"
+        if lenient and isinstance(o[1], ARITH_ERRORS):
+            return False, "reference undefined on replay"
         if i[0] == "exc" and exc_matches(i[1], o[1]):
             return False, "same exception"
         return True, f"expected {show_outcome(o)}; observed {show_outcome(i)}"
